@@ -56,6 +56,10 @@ def respell_once(F, U, A, rng):
         ops += ["split", "swapprops"]
     if any(b > a for a, b in blocks(F)):
         ops += ["renumber", "renumber"]
+    labelled_pairs = [(p, q) for a, b in blocks(F) for p in range(a, b + 1) for q in range(p + 1, b + 1)
+                      if any(i == p for i, _ in A) and any(i == q for i, _ in A)]
+    if labelled_pairs:
+        ops += ["renumber-labelled"] * 3
     if not ops:
         return F, U, A, ident
     op = rng.choice(ops)
@@ -73,9 +77,12 @@ def respell_once(F, U, A, rng):
         A[i] = (idx, [ps[0]]); A.insert(rng.randint(0, len(A)), (idx, [ps[1]]))
     elif op == "swapprops":
         i = rng.choice([k for k, (_, ps) in enumerate(A) if len(ps) == 2]); A[i] = (A[i][0], A[i][1][::-1])
-    elif op == "renumber":
-        a, b = rng.choice([(a, b) for a, b in blocks(F) if b > a])
-        p, q = rng.sample(range(a, b + 1), 2)
+    elif op in ("renumber", "renumber-labelled"):
+        if op == "renumber":
+            a, b = rng.choice([(a, b) for a, b in blocks(F) if b > a])
+            p, q = rng.sample(range(a, b + 1), 2)
+        else:
+            p, q = rng.choice(labelled_pairs)       # two labelled atoms of one element trade their numbers
         f = dict(ident); f[p], f[q] = q, p
         U = [(f[x], f[y]) for x, y in U]
         A = [(f[i], ps) for i, ps in A]
@@ -114,6 +121,7 @@ def c11_session(sid, base, variants, rng):
 def library_strings(rng, tier):
     pool = drivers.molecule_pool(rng, tier, n_random=60 if tier == "quick" else 500, nmax=8, corpus_n=20 if tier == "quick" else 233, corpus_cap=60)
     pool += drivers.special_molecules()
+    pool += gen.two_label_alkanes(rng, 14 if tier == "quick" else 45)
     from tucan.canonicalization import canonicalize_molecule
     from tucan.serialization import serialize_molecule
     out = []
